@@ -66,22 +66,46 @@ def exactInstance (ds : DateSpec) (y : Int) : Option Int :=
   | .easter _ => dateInstance ds y true
   | .fixed yr m dd => if yr.isNone ∨ (yr.map (fun (n : Nat) => (n : Int))) = some y then ofYmd? y m dd else none
 
+def isFixedDate : DateSpec → Bool
+  | .fixed .. => true
+  | .easter _ => false
+
+def specYear : DateSpec → Option Int
+  | .fixed y _ _ => y.map (fun (n : Nat) => (n : Int))
+  | .easter y => y.map (fun (n : Nat) => (n : Int))
+
+/-- years on which instances of the bounds are looked for: around the evaluated day and around the
+years the bounds carry -/
+def candidateYears (s e : DateSpec) (w : Nat) (d : Int) : List Int :=
+  yearsNear (year d) w ++ (match specYear s with | some y => yearsNear y w | none => [])
+    ++ (match specYear e with | some y => yearsNear y w | none => [])
+
+def maxOpt (l : List Int) : Option Int :=
+  l.foldl (fun (acc : Option Int) x => match acc with | none => some x | some a => some (max a x)) none
+
 /-- dated range `start-end`: `d` lies at or after a start instance and no end instance lies between
 the most recent start instance and `d` (each start pairs with the first end at or after it; a start
-without a later end stays open; an end without a start before it selects nothing).  A single date
-(start = end) selects its exact instances only. -/
+without a later end stays open; an end without a start before it selects nothing).  An end that
+carries a year closes the range there (nothing is selected if that is before the start).
+A single fixed date (start = end) selects its exact instances only. -/
 def datedOk (s : DateSpec) (so : DateOffset) (e : DateSpec) (eo : DateOffset) (d : Int) : Bool :=
-  let ys := yearsNear (year d) (yearSpan so eo)
-  if s = e then
+  let ys := candidateYears s e (yearSpan so eo) d
+  if s = e ∧ isFixedDate s then
     ys.any (fun y => match exactInstance s y with
       | some i => shift so i ≤ d && d ≤ shift eo i
       | none => false)
   else
     let starts := ys.filterMap (fun y => (dateInstance s y true).map (shift so))
     let ends := ys.filterMap (fun y => (dateInstance e y false).map (shift eo))
-    match (starts.filter (· ≤ d)).foldl (fun (acc : Option Int) x => match acc with | none => some x | some a => some (max a x)) none with
+    match maxOpt (starts.filter (· ≤ d)) with
     | none => false
-    | some s0 => !(ends.any (fun x => s0 ≤ x && x < d))
+    | some s0 =>
+      !(ends.any (fun x => s0 ≤ x && x < d)) &&
+        (match specYear e with | some _ => ends.any (fun x => d ≤ x) | none => true)
+
+/-- the documented semantics give no meaning to a range from a date without a year to a date with
+one (`Oct 15-2021 easter`): such rules are outside the scope of C01 -/
+def datedDefined (s e : DateSpec) : Bool := !(specYear s).isNone || (specYear e).isNone
 
 def monthdayOk (r : MonthdayRange) (d : Int) : Bool :=
   match r with
@@ -191,5 +215,34 @@ def dayTable (ctx : Ctx) (e : Expr) (d : Int) : DayTab :=
 
 /-- the state of minute `m` of day `d` -/
 def dayState (ctx : Ctx) (e : Expr) (d : Int) (m : Nat) : Kind := ((dayTable ctx e d).at m).getD .closed
+
+/-- Known finding D20 (class `D20-dated-window`): the implementation pairs the bounds of a dated
+range without years by projecting them on the years `y-1..y+1` around the evaluated day; an
+occurrence that is about one year long, or whose bounds are shifted by about a year or more, starts
+or ends outside that window.  The class is decided on the rule alone: some yearless dated range has
+a day offset of 330 days or more, or its nominal length (first end at or after the start on the
+reference year 2024, weekday shifts left out) is 340 days or more, or it is at most 12 days with a
+weekday shift (the shifts can then reorder the bounds and make the occurrence a year long). -/
+def datedWindowRisk (s : DateSpec) (so : DateOffset) (e : DateSpec) (eo : DateOffset) : Bool :=
+  let noWd (o : DateOffset) : DateOffset := ⟨.none, o.days⟩
+  let hasWd := so.wday != .none || eo.wday != .none
+  (specYear s).isNone && (specYear e).isNone &&
+    (so.days.natAbs ≥ 330 || eo.days.natAbs ≥ 330 ||
+      (match dateInstance s 2024 true with
+       | none => false
+       | some s0 =>
+         -- nominal length, weekday shifts (up to 6 days each way) left out
+         let st := shift (noWd so) s0
+         let ends := ([2023, 2024, 2025, 2026] : List Int).filterMap (fun y => (dateInstance e y false).map (shift (noWd eo)))
+         match (ends.filter (· ≥ st)).foldl (fun (acc : Option Int) x => match acc with | none => some x | some a => some (min a x)) none with
+         | none => true
+         | some en => en - st ≥ 340 || (hasWd && en - st ≤ 12 && !(s == e && isFixedDate s))))
+
+def exprWindowRisk (e : Expr) : Bool :=
+  e.any (fun r => r.day.monthday.any (fun m => match m with | .date s so e eo => datedWindowRisk s so e eo | _ => false))
+
+/-- every dated range of the expression has a defined meaning -/
+def exprDefined (e : Expr) : Bool :=
+  e.all (fun r => r.day.monthday.all (fun m => match m with | .date s _ e _ => datedDefined s e | _ => true))
 
 end OH.Spec
